@@ -77,6 +77,14 @@ class _Assigned(ast.NodeVisitor):
             self._root(n.func.value)
         self.generic_visit(n)
 
+    def visit_Yield(self, n):
+        self.names.add("_yielded")
+        self.generic_visit(n)
+
+    def visit_YieldFrom(self, n):
+        self.names.add("_yielded")
+        self.generic_visit(n)
+
     def visit_MatchAs(self, n):
         if n.name:
             self.names.add(n.name)
